@@ -270,8 +270,8 @@ func aggrLevel(mode string, metas []chunks.Meta, acs []*downsample.AggrChunk, r1
 // child may need many seconds of wall time for a few milliseconds of work.  childWall is only a
 // last resort.
 var (
-	childCPU  = 4 * time.Second
-	childWall = 180 * time.Second
+	childCPU  = 20 * time.Second
+	childWall = 600 * time.Second
 )
 
 // cpuTime returns utime+stime of a process from /proc/<pid>/stat.
